@@ -5,10 +5,11 @@ from vt.core import Ob, OK, FAIL, UNDEC, ERR
 def all_contracts():
     from vt.e1 import tt_contracts
     reg = dict(tt_contracts.REG)
-    from vt.e1 import sle_contracts, ode_contracts, ode1_contracts
+    from vt.e1 import sle_contracts, ode_contracts, ode1_contracts, split_contracts
     reg.update(sle_contracts.REG)
     reg.update(ode_contracts.REG)
     reg.update(ode1_contracts.REG)
+    reg.update(split_contracts.REG)
     return reg
 
 
